@@ -579,3 +579,87 @@ func abnormalBattery() {
 		}
 	}
 }
+
+// ---- a factory-style constructor that resolves a collaborator itself and wraps its failure ------------------------
+
+type lazyOuter struct{}
+type lazyInner struct{}
+
+var errLazyOuter = errors.New("verif: outer constructor gives up")
+var errLazyInner = errors.New("verif: inner constructor failed")
+var lazyInnerPanics atomic.Bool
+
+func newLazyInner() (*lazyInner, error) {
+	if lazyInnerPanics.Load() {
+		panic("verif: inner constructor panicked")
+	}
+	return nil, errLazyInner
+}
+
+// the outer constructor resolves its collaborator through the injected scope and reports ITS OWN error, wrapping what it got
+func newLazyOuter(s godi.Scope) (*lazyOuter, error) {
+	if _, err := s.Get(typeOf[*lazyInner]()); err != nil {
+		return nil, fmt.Errorf("%w: %w", errLazyOuter, err)
+	}
+	return &lazyOuter{}, nil
+}
+
+func lazyBattery() {
+	for _, life := range []string{"scoped", "transient", "singleton"} {
+		for _, inner := range []string{"err", "panic"} {
+			life, inner := life, inner
+			abuseCall("lazy_ctor_own_error_"+life+"_"+inner, func() error {
+				lazyInnerPanics.Store(inner == "panic")
+				c := godi.NewCollection()
+				if err := c.AddTransient(newLazyInner); err != nil {
+					return err
+				}
+				var err error
+				switch life {
+				case "scoped":
+					err = c.AddScoped(newLazyOuter)
+				case "transient":
+					err = c.AddTransient(newLazyOuter)
+				default:
+					err = c.AddSingleton(newLazyOuter)
+				}
+				if err != nil {
+					return err
+				}
+				p, err := c.Build()
+				if life == "singleton" {
+					if err == nil {
+						p.Close()
+						return fmt.Errorf("Build accepted a failing singleton")
+					}
+				} else {
+					if err != nil {
+						return err
+					}
+					defer p.Close()
+					s, cerr := p.CreateScope(nil)
+					if cerr != nil {
+						return cerr
+					}
+					defer s.Close()
+					_, err = s.Get(typeOf[*lazyOuter]())
+					if err == nil {
+						return fmt.Errorf("the failing constructor was not reported")
+					}
+				}
+				// the constructor's OWN error is what is wrapped (and, through it, the collaborator's failure)
+				if !errors.Is(err, errLazyOuter) {
+					return fmt.Errorf("the outer constructor's own error is not reachable: %v", err)
+				}
+				if inner == "err" && !errors.Is(err, errLazyInner) {
+					return fmt.Errorf("the collaborator's error is not reachable: %v", err)
+				}
+				var cie *godi.ConstructorInvocationError
+				if !errors.As(err, &cie) {
+					return fmt.Errorf("not classifiable as a constructor failure: %v", err)
+				}
+				return nil
+			})
+		}
+	}
+}
